@@ -111,6 +111,10 @@ type caseIn struct {
 	Pre     []int   `json:"pre"`
 	Slots   int     `json:"slots"`
 	N       int     `json:"n"` // node mode: concurrent allocators
+	FaultExists []int `json:"fault_exists,omitempty"` // fallback mode: which Exists calls (1-based, over all callers) fail
+	FaultSet    []int `json:"fault_set,omitempty"`    // fallback mode: which Set calls fail
+	Fails       []bool `json:"fails,omitempty"`       // uuid mode: per entropy read, true = the read fails
+	Kind        int    `json:"kind"`                  // uuid mode: which generator (0 connection, 1 tunnel, 2 mapping instance, 3 bare UUIDGenerator)
 }
 type thrOut struct {
 	Log   [][2]int `json:"log"` // [kind, slot]: 0=Got 1=Exhausted 2=Released
@@ -123,6 +127,8 @@ type caseOut struct {
 	PropOK  bool     `json:"prop_ok"`
 	PropMsg string   `json:"prop_msg"`
 	NodeIDs []string `json:"node_ids,omitempty"`
+	Draws   []int    `json:"draws,omitempty"` // uuid mode: per entropy read, its index (1-based) or 0 when it failed
+	IDs     []int    `json:"ids,omitempty"`   // uuid mode: per returned id, the index of the entropy read whose bytes it carries (0 = none / nil UUID)
 }
 
 func runSched(c caseIn) *caseOut {
@@ -343,6 +349,9 @@ func runCase(raw json.RawMessage) interface{} {
 	}
 	if c.Mode == "fallback" {
 		return runFallback(c)
+	}
+	if c.Mode == "uuid" {
+		return runUUID(c)
 	}
 	if c.Mode == "ttl" {
 		return runTTL(c)
